@@ -30,7 +30,7 @@ fn degenerate_records(rng: &mut Rng, marks: &[usize], allow_foreign: bool, thoro
             }
             _ => rng.usize(1, 90),
         };
-        let kind = if allow_foreign { rng.weighted(&[40, 15, 15, 15, 15]) } else { 0 };
+        let kind = if allow_foreign { rng.weighted(&[34, 13, 13, 13, 13, 14]) } else { 0 };
         let mut seq = match kind {
             0 => {
                 let a = if rng.chance(1, 3) { Alpha::Mixed } else { Alpha::Clean };
@@ -38,6 +38,20 @@ fn degenerate_records(rng: &mut Rng, marks: &[usize], allow_foreign: bool, thoro
             }
             1 => gen_seq(rng, len, Alpha::AllN),
             2 => gen_seq(rng, len, Alpha::WithN),
+            5 => {
+                // low complexity: a homopolymer or short-period repeat (AT, CG, ...:
+                // m-mers that are their own reverse complement), closed by another
+                // base, an N, or the end of the record
+                let body = len.max(2) + rng.usize(0, 40);
+                let a = if rng.chance(1, 3) { Alpha::Homopolymer } else { Alpha::Repeat };
+                let mut s = gen_seq(rng, body, a);
+                match rng.below(3) {
+                    0 => s.push('N'),
+                    1 => s.push_str(&gen_seq(rng, 3, Alpha::Clean)),
+                    _ => {}
+                }
+                s
+            }
             _ => gen_seq(rng, len, Alpha::Clean),
         };
         if kind == 3 && !seq.is_empty() {
@@ -352,6 +366,39 @@ impl Engine for C16 {
                 let len_of: std::collections::BTreeMap<&str, usize> =
                     case.records.iter().map(|r| (r.id.as_str(), r.seq.len())).collect();
                 let need = |id: &str| if w == 0 { len_of.get(id).copied().unwrap_or(0).max(m) } else { w };
+                // a reported minimiser is data only if it (or its reverse
+                // complement) really occurs inside the stretch it is reported for;
+                // the rendered "no run open" sentinel (TTT...T) usually does not
+                let seq_of: std::collections::BTreeMap<&str, &str> =
+                    case.records.iter().map(|r| (r.id.as_str(), r.seq.as_str())).collect();
+                let occurs = |id: &str, mm: &str, s0: usize, e0: usize| -> bool {
+                    let seq = match seq_of.get(id) {
+                        Some(s) => s.as_bytes(),
+                        None => return false,
+                    };
+                    if e0 > seq.len() || s0 > e0 {
+                        return false;
+                    }
+                    let norm: Vec<u8> = seq[s0..e0]
+                        .iter()
+                        .map(|b| match b.to_ascii_uppercase() {
+                            b'U' => b'T',
+                            x => x,
+                        })
+                        .collect();
+                    let fwd = mm.as_bytes();
+                    let rc: Vec<u8> = fwd
+                        .iter()
+                        .rev()
+                        .map(|b| match b {
+                            b'A' => b'T',
+                            b'C' => b'G',
+                            b'G' => b'C',
+                            _ => b'A',
+                        })
+                        .collect();
+                    norm.windows(fwd.len()).any(|w| w == fwd || w == rc.as_slice())
+                };
                 if case.p_str("minpreset") == "s2m" {
                     match parse_s2m(&b) {
                         Err(e) => {
@@ -376,6 +423,13 @@ impl Engine for C16 {
                                         );
                                         return out;
                                     }
+                                    if !occurs(id, mm, *s0, *e0) {
+                                        out.fail(
+                                            "placeholder",
+                                            format!("record {id}: run {mm}:{s0}-{e0}: that m-mer (or its reverse complement) does not occur in bases {s0}..{e0} of the record: a sentinel written as data; {shape}"),
+                                        );
+                                        return out;
+                                    }
                                 }
                             }
                         }
@@ -397,6 +451,13 @@ impl Engine for C16 {
                                                 "minimiser {mm}: entry ({id}, {s0}, {e0}) is shorter than one window ({} bases): a sentinel written as data; {shape}",
                                                 need(id)
                                             ),
+                                        );
+                                        return out;
+                                    }
+                                    if !occurs(id, mm, *s0, *e0) {
+                                        out.fail(
+                                            "placeholder",
+                                            format!("minimiser {mm}: entry ({id}, {s0}, {e0}): that m-mer (or its reverse complement) does not occur in bases {s0}..{e0} of the record: a sentinel written as data; {shape}"),
                                         );
                                         return out;
                                     }
